@@ -17,7 +17,7 @@ PROPS["C12"] = {
     "crate": "rt",
     "groups": [
         {"id": "views",
-         "quick": ["c12::c12_sliceref_u8_4", "c12::c12_sliceref_u64_4", "c12::c12_sliceref_zst_4", "c12::c12_sliceref_t3_4",
+         "quick": ["c12::c12_sliceref_u8_4", "c12::c12_sliceref_u64_4", "c12::c12_sliceref_zst_4", "c12::c12_zst_slices_of_any_length", "c12::c12_sliceref_t3_4",
                    "c12::c12_slices_t3_any_address",
                    "c12::c12_slicemut_u8_4", "c12::c12_slicemut_u64_4", "c12::c12_slicemut_zst_4", "c12::c12_slicemut_t3_4",
                    "c12::c12_utf8_decision_4", "c12::c12_str_rt_4",
@@ -409,11 +409,13 @@ PROPS["C02"] = {
          "quick": ["c02::c02_args_slices", "c02::c02_args_mutable", "c02::c02_args_values", "c02::c02_args_callback_iterator", "c02::c02_iterator_argument_not_fused", "c02::c02_strings_multibyte",
                    "c02::c02_returns", "c02::c02_boxed_object", "c02::c02_npo_options", "c02::c02_narrow_options_and_zst_mut_slices", "c02::c02_negative_twin",
                    # integer-coded results with an io::Error payload (every i32 OS code) - shared with C13
-                   "c13e::c13e_io_codes", "c13e::c13e_roundtrip", "c13e::c13e_payload_shapes"],
+                   "c13e::c13e_io_codes", "c13e::c13e_roundtrip", "c13e::c13e_payload_shapes",
+                   "c13e::c13e_display_object_reports_fmt_errors"],
          "timeout": 1800},
         {"id": "corpus", "crate": "gencorp", "quick": _gc_subset(1), "thorough": list(_GC), "timeout": 900},
         # an iterator passed on by reference is still the caller's iterator afterwards: nothing beyond what was offered is taken
-        {"id": "feed", "crate": "rt", "quick": ["c15::c15_feed_borrowed_source_takes_only_what_it_offers"], "timeout": 900},
+        {"id": "feed", "crate": "rt", "quick": ["c15::c15_feed_borrowed_source_takes_only_what_it_offers", "c15::c15_extend_closure_4",
+                                                "c12::c12_zst_slices_of_any_length"], "timeout": 900},
     ],
     "negative": ["c02::c02_negative_twin"],
     "bounds": "shapes {&[u8], &[u64], &[ZST], &mut [u8], &str (symbolic ASCII + fixed multi-byte + empty), Option<u32>, Option<&u64>, "
@@ -472,7 +474,8 @@ PROPS["C06"] = {
          "quick": ["c06::c06_object_paths", "c06::c06_group_paths", "c06::c06_clone_and_self_return",
                    "c06::c06_borrowing_objects_do_not_drop", "c06::c06_boxed_parent_borrowed_child", "c06::c06_cbox_paths",
                    "c06::c06_cslicebox", "c06::c06_cslicebox_plain_data", "c06::c06_large_payload",
-                   "c06::c06_lifetime_bound_mut_return_first_call", "c06::c06_kf_borrowed_child_context_clone_never_released", "c06::c06_zero_sized_payload_with_destructor", "c06::c06_negative_twin"],
+                   "c06::c06_lifetime_bound_mut_return_first_call", "c06::c06_kf_borrowed_child_context_clone_never_released",
+                   "c13e::c13e_roundtrip", "c06::c06_zero_sized_payload_with_destructor", "c06::c06_negative_twin"],
          "cbmc_args": LEAK, "timeout": 1800},
     ],
     "known": {
@@ -527,7 +530,7 @@ PROPS["C08"] = {
          "quick": ["c08::c08_g3_box", "c08::c08_g3_mut", "c08::c08_ref_container", "c08::c08_impl_types_g3", "c08::c08_aliased_generic_members",
                    "c08::c08_owned_list_of_four_argument_registration",
                    "c08x::c08x_mandatory_and_optional_word_order", "c08x::c08x_casts_dispatch_to_the_right_trait",
-                   "c08x::c08x_external_and_local_traits_in_one_list",
+                   "c08x::c08x_external_and_local_traits_in_one_list", "c08x::c08x_group_without_mandatory_traits",
                    "c08::c08_negative_twin"],
          "thorough_adds": ["c08::c08_g4_box", "c08::c08_g4_mut"],
          "timeout": 3000},
